@@ -38,7 +38,10 @@ enum { MAXRULES = 64 };
 // a symbolic (or, in the native twin, replayed) automaton over N states
 template <unsigned N> struct SymAut {
   bool pres[MAXRULES]; bool fin[N]; unsigned nrules;
-  void draw() { nrules = Univ<N>::count(); for (unsigned i = 0; i < nrules; ++i) pres[i] = vs_bit(); for (unsigned s = 0; s < N; ++s) fin[s] = vs_bit(); }
+  // mask: which universe rules are candidates at all (bit i = rule i); the others are absent and draw no input
+  void draw(unsigned long mask = ~0ul) { nrules = Univ<N>::count(); for (unsigned i = 0; i < nrules; ++i) pres[i] = ((mask >> i) & 1) ? vs_bit() : false; for (unsigned s = 0; s < N; ++s) fin[s] = vs_bit(); }
+  // candidate mask of the "triangular" sub-universe: a rule is a candidate iff its parent number is <= every child number
+  static unsigned long triangular() { unsigned long m = 0; unsigned n = Univ<N>::count(); for (unsigned i = 0; i < n; ++i) { Rule r = Univ<N>::rule(i); bool ok = true; for (unsigned k = 0; k < r.rank; ++k) ok = ok && r.parent <= r.child[k]; if (ok) m |= 1ul << i; } return m; }
   bool has(unsigned sym, unsigned parent, unsigned c0 = 0, unsigned c1 = 0) const { return pres[Univ<N>::index(sym, parent, c0, c1)]; }
   template <class Aut> void build(Aut& aut, const unsigned* rename = 0) const {
     for (unsigned i = 0; i < nrules; ++i) if (pres[i]) {
